@@ -449,6 +449,12 @@ def gen_vector(tier, seed_):
     for opt in SVG_OPTS:
         for s in (1, 2.5):
             add('svg', 1, dict(opt, scale=s))
+    # EPS / PDF accept floats as R, G, B values (docstring of write_eps): each float component is an intensity 0.0 .. 1.0, also next to
+    # int components in the same tuple
+    for c in ((0.5, 0.0, 0.0), (0.5, 0, 0), (1.0, 1.0, 0), (0.5, 0.25, 1.0), (0.0, 0.0, 0.5), (0, 0.5, 255), (1.0, 0, 0), (0.2, 0.4, 0.6)):
+        for kind in ('eps', 'pdf'):
+            add(kind, 'M1', {'dark': c})
+            add(kind, 1, {'light': c, 'dark': (0, 0, 0.5)})
     # hexadecimal colours written without '#' (accepted by the implementation, not documented: honoured as that colour, or refused)
     for c in ('c0ffee', 'FA8072', 'abc', 'eee', '123', '00f', 'DEAD', 'c0ffee80', 'fade', 'bad', 'BEEF00'):
         for kind in ('svg', 'eps', 'pdf'):
